@@ -1,5 +1,5 @@
 """C01 - Backup round trip is the identity on file trees."""
-from specs import fsutil, snapshot, restore, c01_lemmas
+from specs import misc, fsutil, snapshot, restore, c01_lemmas
 
 LEVEL = 'proof'
 UNITS = fsutil.units('C01') + [
@@ -12,7 +12,7 @@ UNITS = fsutil.units('C01') + [
     restore.restore_tail_unit('C01'),
     restore.write_part_unit('C01'),
     c01_lemmas.lemmas('C01'),
-]
+] + misc.metadata_units('C01') + misc.hashlib_adapter_units('C01')
 BOUNDED = [
     {'name': 'C01.e2e', 'script': 'bounded/c01_e2e.py', 'timeout': 1200,
      'bound': '<= 4 files; sizes from the boundary family around alignment 4, min, max, 2*max (max <= 64); '
